@@ -72,10 +72,12 @@ VARIABLES
                \*   point where it cancels the delayed will of the id
     cpc,       \* closer: "idle" "begin" "waiting" "closed" "returned"
     closing,   \* Close has taken its snapshot of the clients (listener end flag set)
+    xp,        \* the handlers whose (disconnected, expired) client objects the housekeeping is discarding: it has taken its
+               \*   snapshot of Server.Clients and is inside OnClientExpired of the first of them ({} = not running)
     hist       \* the events so far (schedule for the driver)
 
-vars == <<MaxClients, cfg, pc, wg, cnt, reg, trie, own, inh, stopped, tko, sp, wire, delayed, wills, resumedBy, wiped, cpc, closing, hist>>
-view == <<MaxClients, cfg, pc, wg, cnt, reg, trie, own, inh, stopped, tko, sp, wire, delayed, wills, resumedBy, wiped, cpc, closing>>
+vars == <<MaxClients, cfg, pc, wg, cnt, reg, trie, own, inh, stopped, tko, sp, wire, delayed, wills, resumedBy, wiped, cpc, closing, xp, hist>>
+view == <<MaxClients, cfg, pc, wg, cnt, reg, trie, own, inh, stopped, tko, sp, wire, delayed, wills, resumedBy, wiped, cpc, closing, xp>>
 
 Id(h) == cfg[h].id
 Ev(h, g) == [h |-> h, g |-> g]
@@ -89,7 +91,7 @@ Init ==
     /\ stopped = [h \in H |-> FALSE] /\ tko = [h \in H |-> FALSE] /\ sp = [h \in H |-> FALSE]
     /\ wire = [h \in H |-> <<>>]
     /\ delayed = [i \in Ids |-> NoH] /\ wills = [h \in H |-> 0] /\ resumedBy = [h \in H |-> 0] /\ wiped = {}
-    /\ cpc = "idle" /\ closing = FALSE /\ hist = <<>>
+    /\ cpc = "idle" /\ closing = FALSE /\ xp = {} /\ hist = <<>>
 
 Write(w, h, p) == [w EXCEPT ![h] = IF stopped[h] THEN @ ELSE Append(@, p)]
 Acked(h) == \E k \in 1..Len(wire[h]) : wire[h][k] \in {"CONNACK0", "CONNACK1"}
@@ -386,11 +388,37 @@ HandlerStep(h) ==
     \/ Register(h) \/ Connack(h) \/ ConnackFails(h) \/ WillCancel(h) \/ EnterRead(h) \/ EnterReadClosed(h) \/ ReadEnds(h)
     \/ WillNowOrNone(h) \/ WillDelayGate(h) \/ WillDelayAdd(h) \/ DisconnectHook(h) \/ CleanupKeep(h) \/ CleanupUnsub(h) \/ CleanupDelete(h)
 
-Next ==
+(* ------------------------------------------------------------------ session expiry (housekeeping) *)
+(* clearExpiredClients at a time when every disconnected session has expired: snapshot of Server.Clients; for every   *)
+(* client object that is disconnected: OnClientExpired (the schedule point hook.expired is inside the first call),     *)
+(* then its in-flight messages, its subscriptions and the registry entry OF ITS ID go.                                 *)
+(* Deviation "ExpiryDeletesLive": ... also when a new connection has resumed the session meanwhile (the code before     *)
+(* its repair); the reference leaves a client object alone that has been taken over.                                   *)
+Offline(h) == pc[h] = "done" /\ \E i \in Ids : reg[i] = h
+Expirable(h) == Offline(h) /\ ("ExpiryDeletesLive" \in Dev \/ ~tko[h])      \* (the reference skips objects that have been taken over)
+ExpireBegin ==
+    /\ xp = {} /\ \E h \in H : Expirable(h)
+    /\ xp' = {h \in H : Expirable(h)}
+    /\ Log(0, "hook.expired")
+    /\ UNCHANGED <<pc, wg, cnt, reg, trie, own, inh, stopped, tko, sp, wire, delayed, wills, resumedBy, wiped, cpc, closing>>
+ExpireFinish ==
+    /\ xp # {}
+    /\ LET gone == IF "ExpiryDeletesLive" \in Dev THEN xp ELSE {h \in xp : ~tko[h]} IN
+         /\ reg' = [i \in Ids |-> IF \E h \in gone : Id(h) = i THEN NoH ELSE reg[i]]
+         /\ trie' = trie \ {Id(h) : h \in {x \in gone : own[x]}}
+         /\ own' = [h \in H |-> own[h] /\ h \notin gone]
+    /\ xp' = {}
+    /\ Log(0, "expire.finish")
+    /\ UNCHANGED <<pc, wg, cnt, inh, stopped, tko, sp, wire, delayed, wills, resumedBy, wiped, cpc, closing>>
+
+NextCore ==
     \/ \E h \in H : HandlerStep(h) \/ ("drop" \in EnvOn /\ Drop(h)) \/ ("sub" \in EnvOn /\ Subscribe(h))
     \/ "pub" \in EnvOn /\ \E i \in Ids : Publish(i)
     \/ "tick" \in EnvOn /\ Tick
     \/ "close" \in EnvOn /\ (CloseCall \/ CloseClients \/ WaitDone \/ CloseReturns)
+Next ==
+    \/ NextCore /\ UNCHANGED xp
+    \/ "expire" \in EnvOn /\ (ExpireBegin \/ ExpireFinish)
 
 Spec == Init /\ [][Next]_vars
 
